@@ -48,7 +48,7 @@ static std::vector<uint32_t> cornerSet(bool deep) {
                              0x11, 0xFF, 0x100, 0xFFF, 0x1000, 799996, 799999, 800000, 0x7FFFF, 0x80000, 0x1FFFFF, 0x200000, 0xFFF80000u, 0xFFE00000u, 0x12345678u};
   for (int b : {4, 8, 15, 16, 17, 18, 19, 20, 21, 22, 24, 30, 31}) { k.push_back(1u << b); k.push_back((1u << b) - 1); if (thorough) { k.push_back(~(1u << b)); k.push_back((1u << b) + 1); k.push_back(0u - (1u << b)); } }
   if (thorough) for (uint32_t v = 0; v < 8; v++) { k.push_back(199992 + v); k.push_back(0xFFFFFFF8u + v); k.push_back(4 + v); }
-  if (deep) { for (int b = 5; b < 32; b++) { k.push_back((1u << b) + 16); k.push_back((1u << b) - 16); k.push_back(~(1u << b) - 1); } for (uint32_t v = 0; v < 16; v++) { k.push_back(0x30D30 + v); k.push_back(0xC34F0 + v); k.push_back(0x12 + v); } }
+  if (deep) { for (int b = 5; b < 32; b++) { k.push_back((1u << b) + 16); k.push_back((1u << b) - 16); k.push_back(~(1u << b) - 1); k.push_back((3u << (b - 1))); k.push_back(0u - (3u << (b - 1))); } for (uint32_t v = 0; v < 16; v++) { k.push_back(0x30D30 + v); k.push_back(0xC34F0 + v); k.push_back(0x12 + v); k.push_back(0x7FFF0 + v); k.push_back(0xFFFF0 + v); k.push_back(0x1FFFF0 + v); } }
   std::sort(k.begin(), k.end()); k.erase(std::unique(k.begin(), k.end()), k.end());
   return k;
 }
@@ -189,7 +189,7 @@ int main(int argc, char **argv) {
     if (!r.complete || rep.st.c["grid_units_skipped_deadline"]) rep.caps.push_back("grid: deadline");
   }
   // ================= seq: every instruction sequence of length <= d at address 0, run from the start state until exit / undefined / step cap
-  int depth = ctx.thorough() ? 5 : 4, done = 0;
+  int depth = ctx.thorough() ? 6 : 4, done = 0;
   for (int d = 1; d <= depth; d++) {
     if (ctx.expired()) { rep.caps.push_back("seq: deadline before length " + std::to_string(d)); break; }
     uint64_t total = 1; for (int i = 0; i < d; i++) total *= NS;
